@@ -298,7 +298,8 @@ fn conversions(rep: &mut Report, m: i32, s: i32, x: f32, sub: &'static str, case
     }
     // Time / DimensionlessInteger try_from only for s / dimensionless
     rep.eval();
-    if Time::try_from(q).is_ok() != ((m, s) == (0, 1)) {
+    // (only the unit decides for seconds values a Time can hold; beyond ~9.2e9 s an implementation may refuse the value itself)
+    if x.abs() < 9.0e9 && Time::try_from(q).is_ok() != ((m, s) == (0, 1)) {
         rep.violation("C01/conv/Time::try_from(Quantity)", sub, case, format!("unit ({},{}) is_ok={}", m, s, Time::try_from(q).is_ok()));
     }
     rep.eval();
